@@ -358,7 +358,7 @@ func Run(c Case, caseNo int) (res Result) {
 		res.Records, res.Bad, res.Requests = r.recs, r.bad, r.nreq
 		res.EndTime = uint64(s.Engine.CurrentTime())
 		for _, a := range s.Agents {
-			res.TopReqs += a.Sent
+			res.TopReqs += a.Sent()
 		}
 		for a, n := range r.memReads {
 			res.MemReads += n
